@@ -481,11 +481,16 @@ CHECKS = {
         [dict(module="Assertion", sub="tbl-assertion", prefixes=("C14.",), sig=c14a_sig, need=c14a_need, label="JWT assertion table",
               required=["verify:accept", "verify:reject", "bearerP:accept", "bearerL:accept", "codeP:accept", "codeL:accept", "codeP:reject", "codeL:reject"]),
          dict(module="RequestObject", sub="tbl-reqobj", prefixes=("C14.",), sig=c14r_sig, need=c14r_need, label="request object table",
-              required=["P:login:obj", "L:login:obj", "P:refused:none", "L:refused:none"])],
+              required=["P:login:obj", "L:login:obj", "P:refused:none", "L:refused:none"]),
+         dict(module="Interop", sub="tbl-interop", prefixes=("C14.",), label="client-helper interoperability table",
+              sig=lambda o: f"interop:{o['c']['helper']}:{o['c']['key']}:{o['c']['router']}", need=lambda o: [f"{o['c']['helper']}:{o['o']['v']}"],
+              required=["client.SignedJWTProfileAssertion:accept", "oidc.GenerateJWTProfileToken:accept", "profile.NewJWTProfileTokenSource:accept",
+                        "rp.CodeExchangeHandler+WithJWTProfile:accept", "rs.NewResourceServerJWTProfile:accept"])],
         ["storage holds keys per client (A: RSA, EC, Ed25519; B: EC; one key for nobody); assertions / request objects are built and signed byte by byte by the harness",
          "HTTP entries use a provider whose JWTProfileVerifier takes the case's subject check (op.SubjectCheck), max age 1 h, offset 1 s, on both routers",
          "identity probe: an authorization code of the `probe` client is redeemed with the assertion as client authentication",
-         "interoperability of the client helpers (client.SignedJWTProfileAssertion etc.) is exercised by the repository's integration tests and by C05/C06 histories (JWTBearer with own key), not by this table",
+         "interoperability: spec/Interop.tla - five client helpers x four private-key formats (PKCS#1 / PKCS#8 RSA, P-256, Ed25519) x both routers; RSA and P-256 must be accepted "
+         "with the client's identity, Ed25519 (EdDSA, not in the provider's default list) may go either way",
          "case domain: <= 2 (quick) / <= 3 (thorough) deviations from three fitting assertions / two fitting request objects"]),
     "C02": simple_table_check(
         [dict(module="Signature", sub="tbl-signature", prefixes=("C02.",), sig=c02_sig, need=c02_need, label="signature / key-selection table",
